@@ -80,7 +80,7 @@ impl Monitor for OrderMonitor {
 				}
 				v.rep.count("c09_o1_watch_calls");
 			},
-			Obs::Tap(Ev::WatchUpdate { node, chan, update_id, steps, status, bytes }) => {
+			Obs::Tap(Ev::WatchUpdate { node, chan, update_id, steps, status, bytes, .. }) => {
 				let step_now = self.cur_step;
 				let s = self.st.entry((*node, *chan)).or_default();
 				v.rep.count("c09_o1_watch_calls");
